@@ -19,6 +19,7 @@ import (
 	"context"
 	_ "crypto/sha256"
 	_ "crypto/sha512"
+	"encoding/json"
 	"errors"
 	"fmt"
 	"math/rand/v2"
@@ -45,6 +46,16 @@ func main() {
 		worker.Serve(runCase)
 		return
 	}
+	if dbg := os.Getenv("C16_DEBUG"); dbg != "" { // C16_DEBUG=phase:case prints one case
+		var ph string
+		var i int
+		ph, rest, _ := strings.Cut(dbg, ":")
+		fmt.Sscanf(rest, "%d", &i)
+		res := runCase(ph, i)
+		b, _ := json.MarshalIndent(map[string]any{"result": res, "ops": lastEnv.ops, "events": lastEnv.world.Events(0)}, "", " ")
+		fmt.Println(string(b))
+		return
+	}
 	r := evidence.New("C16", "exploration")
 	r.Rule("case = (2-4 registry hosts out of a pool incl. same name/different port, each with own credential {user+password, +refresh token, refresh only, static access token, wrong password, none}, " +
 		"scheme {Basic, Bearer, open, unknown}, realm on {own host, foreign token host (possibly shared), another registry's host}; one auth.Client with cache flavour {none, NewCache, NewSingleContextCache}, ForceAttemptOAuth2 on/off). " +
@@ -58,13 +69,13 @@ func main() {
 	r.Assume("valid credentials = every secret the client was given for the host is the one the registry / its token service accepts and suffices for the registry's scheme; anonymous access is refused by the world and not judged for liveness")
 	r.Assume("interleavings of the concurrent phases are sampled, not enumerated; coalescing of a late request depends on scheduling and is counted, never demanded")
 
-	worker.Run(r, worker.Opts{Phase: "seq", Total: r.N(1500, 20000), Batch: r.N(100, 250)})
-	worker.Run(r, worker.Opts{Phase: "conc", Total: r.N(400, 6000), Batch: r.N(25, 100)})
+	worker.Run(r, worker.Opts{Phase: "seq", Total: r.N(6000, 60000), Batch: r.N(125, 400)})
+	worker.Run(r, worker.Opts{Phase: "conc", Total: r.N(2400, 24000), Batch: r.N(50, 150)})
 	if bin := os.Getenv("VERIF_RACE_BIN"); bin != "" {
 		raceDir, _ := os.MkdirTemp("", "verif-c16-race-")
 		defer os.RemoveAll(raceDir)
-		worker.Run(r, worker.Opts{Phase: "race", Total: r.N(120, 3000), Batch: r.N(15, 60), Bin: bin,
-			Env: []string{"GORACE=halt_on_error=0 log_path=" + filepath.Join(raceDir, "race")}})
+		worker.Run(r, worker.Opts{Phase: "race", Total: r.N(600, 6000), Batch: r.N(25, 100), Bin: bin,
+			Env: []string{"GORACE=halt_on_error=0 exitcode=0 log_path=" + filepath.Join(raceDir, "race")}})
 		n := countRaceReports(raceDir, r)
 		r.Set("race_reports_in_library", n)
 		os.RemoveAll(raceDir)
@@ -76,8 +87,8 @@ func main() {
 	if r.Counter("hook_auth_cache_set_enter") == 0 {
 		r.Inconclusive("hook auth.cache.set.enter never reached: coalescing rounds were not synchronised")
 	}
-	floor := r.N(700, 9000)
-	if r.Counter("coalesced_groups") < int64(r.N(50, 800)) || r.Counter("handovers_after_cancelled_owner") < int64(r.N(15, 250)) {
+	floor := r.N(4000, 40000)
+	if r.Counter("coalesced_groups") < int64(r.N(800, 8000)) || r.Counter("handovers_after_cancelled_owner") < int64(r.N(300, 3000)) {
 		fmt.Printf("BROKEN: property=C16 too few coalescing observations (coalesced_groups=%d handovers=%d)\n",
 			r.Counter("coalesced_groups"), r.Counter("handovers_after_cancelled_owner"))
 		code := r.Write(floor)
@@ -152,7 +163,10 @@ type reqSpec struct {
 	HintAPI int                 `json:"hint_api"`
 }
 
+var lastEnv *env
+
 type env struct {
+	caseIdx int
 	rng     *rand.Rand
 	phase   string
 	flavour string
@@ -648,7 +662,7 @@ func (e *env) finish(key string, nt bool) {
 	c := e.world.CountersCopy()
 	for _, k := range []string{"requests_seen", "requests_registry", "requests_token", "secret_scans", "secrets_seen_on_wire", "cross_host_opportunities",
 		"token_fetches", "tokens_issued", "token_fetches_refused", "issued_token_presentations", "scope_set_equalities_checked", "token_reuses_by_other_request",
-		"token_reuses_with_differently_written_scopes", "short_bodies", "unknown_destination", "host_header_differs"} {
+		"token_reuses_with_differently_written_scopes", "short_bodies", "unknown_destination", "host_header_differs", "requests_refused_by_transport"} {
 		if c[k] != 0 {
 			e.res.Count(k, c[k])
 		}
@@ -688,6 +702,8 @@ func runCase(phase string, i int) worker.Result {
 	rng := evidence.RandFor(seed, stream, i)
 	var res worker.Result
 	e := newEnv(rng, phase, seed, i, &res)
+	e.caseIdx = i
+	lastEnv = e
 	installHook(e)
 	defer verifhook.Handler.Store(nil)
 	if phase == "seq" {
@@ -747,11 +763,39 @@ func runSeq(e *env, i int) {
 // ---------------------------------------------------------------------------
 // concurrent rounds
 
+// manualCtx is a context that ends when the harness says so, with the error
+// the harness chooses (context.Canceled or context.DeadlineExceeded): no
+// wall-clock deadline is involved in "deadline exceeded" cases.
+type manualCtx struct {
+	context.Context
+	mu   sync.Mutex
+	done chan struct{}
+	err  error
+}
+
+func newManualCtx(parent context.Context) *manualCtx {
+	return &manualCtx{Context: parent, done: make(chan struct{})}
+}
+func (c *manualCtx) Done() <-chan struct{}       { return c.done }
+func (c *manualCtx) Deadline() (time.Time, bool) { return time.Time{}, false }
+func (c *manualCtx) Err() error {
+	c.mu.Lock()
+	defer c.mu.Unlock()
+	return c.err
+}
+func (c *manualCtx) end(err error) {
+	c.mu.Lock()
+	if c.err == nil {
+		c.err = err
+		close(c.done)
+	}
+	c.mu.Unlock()
+}
+
 type member struct {
 	corr      int
 	grp       *group
-	cancel    context.CancelFunc
-	deadline  bool
+	mctx      *manualCtx
 	cancelled atomic.Bool // cancelled (or deadline-bound) by the harness: not judged for liveness
 	wasHeld   atomic.Bool // reached its group's hold point (it ran the group's fetch)
 	done      chan struct{}
@@ -762,7 +806,8 @@ type group struct {
 	reg       int
 	spec      *reqSpec
 	n         int
-	mode      string // none | owner | owner2 | waiter | deadline
+	mode      string // none | owner | owner2 | waiter | deadline (= owner(s) end with DeadlineExceeded)
+	endErr    error  // how victims' contexts end
 	holdPoint string // token | cred
 	budget    int
 	members   []*member
@@ -800,10 +845,6 @@ func (g *gate) hold(ctx context.Context, corr int, point string) error {
 	case <-ctx.Done():
 		return ctx.Err()
 	}
-	if m.deadline {
-		<-ctx.Done()
-		return ctx.Err()
-	}
 	victim := false
 	g.mu.Lock()
 	if m.grp.budget > 0 {
@@ -813,7 +854,7 @@ func (g *gate) hold(ctx context.Context, corr int, point string) error {
 	g.mu.Unlock()
 	if victim {
 		m.cancelled.Store(true)
-		m.cancel()
+		m.mctx.end(m.grp.endErr)
 		<-ctx.Done()
 		return ctx.Err()
 	}
@@ -919,12 +960,13 @@ func storm(e *env, rd int) (string, bool) {
 		}(g)
 	}
 	close(start)
-	if !waitWG(&wg, 30*time.Second) {
+	if !waitWG(&wg, 15*time.Second) {
 		hang(e, "storm")
 		return "storm-hung", false
 	}
 	for g := range outs {
 		for _, o := range outs[g] {
+			e.regs[o.spec.Reg].touched = true
 			if mixed {
 				st := e.world.State(o.corr)
 				if e.valid(e.regs[o.spec.Reg]) && (o.err != nil || o.status == 401 || st.Sends > 3 || st.Fetches > 1) {
@@ -1019,6 +1061,9 @@ func coalesceRound(e *env, rd int) (string, bool) {
 		if scheme == authmodel.SchemeBasic && rs.touched && e.flavour != "none" {
 			continue // warm Basic host: requests would never enter Set
 		}
+		if e.flavour != "none" && rs.CredKind == "access" && rs.touched {
+			continue // the static access token is valid for every scope: a cached copy (host-keyed, or under the key of the hints) lets requests pass without entering Set
+		}
 		if rs.CredKind == "empty" && scheme == authmodel.SchemeBasic {
 			continue // ErrBasicCredentialNotFound before any hold point... the helper is still called; keep it simple
 		}
@@ -1051,7 +1096,14 @@ func coalesceRound(e *env, rd int) (string, bool) {
 		case x < 9:
 			g.mode = "waiter"
 		default:
-			g.mode = "deadline"
+			g.mode, g.budget = "deadline", 1+rng.IntN(2)
+			if g.budget >= g.n {
+				g.budget = g.n - 1
+			}
+		}
+		g.endErr = context.Canceled
+		if g.mode == "deadline" || g.mode == "waiter" && rng.IntN(2) == 0 {
+			g.endErr = context.DeadlineExceeded
 		}
 		groups = append(groups, g)
 		inGroup[reg] = true
@@ -1070,29 +1122,15 @@ func coalesceRound(e *env, rd int) (string, bool) {
 	var launches []launch
 	for _, g := range groups {
 		total += g.n
-		nDeadline := 0
-		if g.mode == "deadline" {
-			nDeadline = 1 + rng.IntN(g.n-1)
-		}
 		for j := 0; j < g.n; j++ {
 			m := &member{grp: g, done: make(chan struct{})}
-			m.deadline = j < nDeadline
-			if m.deadline {
-				m.cancelled.Store(true)
-			}
 			g.members = append(g.members, m)
 			all = append(all, m)
 			mm := m
 			launches = append(launches, launch{m: m, spec: g.spec, wrap: func(ctx context.Context, corr int) context.Context {
-				var c context.Context
-				var cancel context.CancelFunc
-				if mm.deadline {
-					c, cancel = context.WithTimeout(ctx, 40*time.Millisecond)
-				} else {
-					c, cancel = context.WithCancel(ctx)
-				}
+				c := newManualCtx(ctx)
 				gt.mu.Lock()
-				mm.corr, mm.cancel = corr, cancel
+				mm.corr, mm.mctx = corr, c
 				gt.members[corr] = mm
 				gt.mu.Unlock()
 				return c
@@ -1138,7 +1176,7 @@ func coalesceRound(e *env, rd int) (string, bool) {
 
 	// wait until every group member is inside Cache.Set (hook) or held
 	synced := false
-	deadline := time.Now().Add(20 * time.Second)
+	deadline := time.Now().Add(10 * time.Second)
 	for time.Now().Before(deadline) {
 		gt.mu.Lock()
 		arr := gt.arrivals
@@ -1189,23 +1227,23 @@ func coalesceRound(e *env, rd int) (string, bool) {
 		}
 		m := cands[rng.IntN(len(cands))]
 		m.cancelled.Store(true)
-		m.cancel()
+		m.mctx.end(g.endErr)
 		select {
 		case <-m.done:
 			e.count("waiters_cancelled", 1)
-		case <-time.After(20 * time.Second):
+		case <-time.After(10 * time.Second):
 		}
 	}
 	gt.isOpen.Store(true)
 	close(gt.open)
-	if !waitWG(&wg, 30*time.Second) {
+	if !waitWG(&wg, 15*time.Second) {
 		hang(e, "coalescing round")
 		return "round-hung", false
 	}
 	gt.mu.Lock()
 	for _, m := range all {
-		if m.cancel != nil {
-			m.cancel()
+		if m.mctx != nil {
+			m.mctx.end(context.Canceled)
 		}
 	}
 	gt.mu.Unlock()
@@ -1271,7 +1309,10 @@ func coalesceRound(e *env, rd int) (string, bool) {
 	e.count("coalescing_rounds", 1)
 	e.res.MaxOf("max_held_at_once", int64(heldAtOpen))
 	if !synced {
-		e.res.Inconc = "coalescing round: not every member reached Cache.Set before the watchdog"
+		gt.mu.Lock()
+		arr := gt.arrivals
+		gt.mu.Unlock()
+		e.res.Inconc = fmt.Sprintf("coalescing round: not every member reached Cache.Set before the watchdog (phase=%s case=%d flavour=%s force=%v groups=%v hook hits=%d arrivals=%d total=%d)", e.phase, e.caseIdx, e.flavour, e.force, shape, gt.hookHits.Load(), arr, total)
 	}
 	return fmt.Sprintf("round[%s]bg%d", strings.Join(shape, ";"), len(bg)), ok
 }
